@@ -8,6 +8,9 @@ props = [json.loads(l) for l in open(os.path.join(HERE, "properties.jsonl"))]
 TRUST = "TLC 1.8 and the CommunityModules Json reader; the harness projection/wrappers (harness/project.py, record.py); CPython as executor of the library."
 
 CHECKS = {
+    "C11": dict(cat="model_checking", ref="DESIGN 8/C11",
+                text="Every ast.stmt subclass of the running interpreter outside the supported set (nested def included) is placed at every structural position template, plus non-function inputs and supported control programs; the real AST2SCFG is run on each and TLC (Unsupported.tla) checks outcome = refused / graph and certifies that the recorded cases are exactly the product kinds x positions. A small finite model, stated as such.",
+                technique="TLC check of a finite product model (Unsupported.tla) against outcomes recorded from the implementation"),
     "C12": dict(cat="other", ref="DESIGN 8/C12",
                 text="Each input is restructured with full tracing in separate processes under K values of PYTHONHASHSEED (4 quick / 16 thorough); TLC walks the runs in lockstep (Determinism.tla, self-composition) and fails at the first operation whose canonical event - names, ordered deltas, tables, counters, dictionary insertion order - differs. The decisive ingredient is the real multi-process run; TLA+ contributes the lockstep comparison.",
                 technique="TLC lockstep comparison (2-safety by self-composition, Determinism.tla) of behaviours recorded in separate processes under different hash seeds"),
